@@ -170,7 +170,18 @@ def j8(rep):
                           all(y is not None and y["k"] == "MemberExpr" and y.get("n") == "prec" for y in (strip(x["c"][0]), strip(x["c"][1])))
                           for x in walk(np["body"]))
     # accepted form: the right operand's call carries a flag that is true for left-associative operators
-    rhs_flag = len(cs[1]["c"]) >= 5 and "JCO_LR" in common.render(cs[1]["c"][-1]) and "==" in common.render(cs[1]["c"][-1])
+    def flag_text(arg):
+        a = strip(arg)
+        if a is not None and a["k"] == "DeclRefExpr" and a.get("dk") == "var":
+            for y in walk(fn["body"]):
+                for d in (y.get("decls", []) if y["k"] == "DeclStmt" else []):
+                    if d.get("did") == a.get("did") and d.get("init") is not None:
+                        return common.render(d["init"])
+                if y["k"] == "BinaryOperator" and y["op"] == "=" and strip(y["c"][0]) is not None and strip(y["c"][0]).get("did") == a.get("did"):
+                    return common.render(y["c"][1])
+        return common.render(arg)
+    rhs_txt = flag_text(cs[1]["c"][-1]) if len(cs[1]["c"]) >= 5 else ""
+    rhs_flag = "JCO_LR" in rhs_txt and "==" in rhs_txt
     same_call = not rhs_flag
     if same_call and strict_only:
         rep.violation("J8", "right-operand-equal-precedence", "javacode.c:%d (jcBinOpPrint / jc0NeedsParens)" % fn["l"],
